@@ -64,3 +64,21 @@ Fixpoint go_loop {S R : Type} (fuel : nat) (body : S -> option (S + R)) (s : S) 
       | x => x
       end
   end.
+
+(* make([]byte, n) *)
+Definition go_make (n : Z) : list Z := repeat 0 (Z.to_nat n).
+(* int32(x): the low 32 bits, signed *)
+Definition go_int32 (x : Z) : Z := (x + 2147483648) mod 4294967296 - 2147483648.
+(* encoding/binary.Uvarint: value and number of bytes read; (0, 0) if the buffer ends inside the number, (0, -(i+1))
+   if it does not fit 64 bits *)
+Fixpoint uvarint_from (l : list Z) (i : nat) (x s : Z) : Z * Z :=
+  match l with
+  | [] => (0, 0)
+  | b :: r =>
+      if (i =? 10)%nat then (0, - (Z.of_nat i + 1))
+      else if b <? 128 then
+        (if (i =? 9)%nat && (b >? 1) then (0, - (Z.of_nat i + 1))
+         else (Z.lor x (Z.shiftl b s), Z.of_nat i + 1))
+      else uvarint_from r (S i) (Z.lor x (Z.shiftl (Z.land b 127) s)) (s + 7)
+  end.
+Definition go_uvarint (l : list Z) : Z * Z := uvarint_from l 0 0 0.
